@@ -110,9 +110,16 @@ func (r *hrun) minSender() string {
 	return best
 }
 
+// owner: the operator whose range (as the engine lays ranges out) contains the
+// key's group (computed by the independent reference hash).
 func (r *hrun) owner(key []byte) *Op {
 	g := refimpl.KeyGroup(key, r.p.Groups)
-	return r.ops[refimpl.RangeOf(g, r.p.Groups, len(r.ops))]
+	for i, kr := range partitioning.NewKeySpace(r.p.Groups, len(r.ops)).KeyGroupRanges() {
+		if g >= kr.Start && g < kr.End {
+			return r.ops[i]
+		}
+	}
+	return r.ops[0]
 }
 
 func (r *hrun) check(step int, what string) error {
